@@ -128,34 +128,48 @@ impl Engine for C13 {
     fn explore(&self, tier: Tier, ctx: &mut Ctx) {
         let r = guard_on_stack(STACK, || {
             valid_programs(tier == Tier::Thorough, |p, tag| {
-                if !ctx.mine() {
-                    return true;
-                }
-                ctx.trace(|| json!({ "program": p, "fault_index": null, "witness": tag }));
-                if tier == Tier::Thorough {
-                    if let Some(msg) = audit_with_llvm_tblgen(p, tag) {
-                        ctx.machinery_error(msg);
+                // every worker walks every program; the cases (two valid renderings, then one per fault) are dealt out singly
+                let em = crate::pm::emit_with(p, false);
+                let fs = faults(&em);
+                let to_failures = |r: Result<Vec<(String, String, String)>, tgv_core::guard::PanicInfo>, case: Value, what: String| -> Vec<Failure> {
+                    match r {
+                        Ok(v) => v.into_iter().map(|(c, w, d)| Failure::new(&c, w, d, case.clone())).collect(),
+                        Err(pn) => vec![Failure::new("crash", what, format!("{} at {}", pn.message, pn.location), case)],
                     }
-                    ctx.add("audited_with_llvm_tblgen", 1);
+                };
+                if ctx.mine() {
+                    ctx.trace(|| json!({ "program": p, "fault_index": null, "witness": tag }));
+                    if tier == Tier::Thorough {
+                        if let Some(msg) = audit_with_llvm_tblgen(p, tag) {
+                            ctx.machinery_error(msg);
+                        }
+                        ctx.add("audited_with_llvm_tblgen", 1);
+                    }
+                    let fails = to_failures(guard(|| check_valid(&em)), json!({ "program": p, "fault_index": null, "trivia": false }), format!("valid {tag}"));
+                    ctx.case(true);
+                    ctx.add("valid_programs", 1);
+                    ctx.sample(|| json!({ "valid": tag, "fault_sites": fs.len() }));
+                    for f in fails {
+                        ctx.fail(f);
+                    }
                 }
-                let (fails, nfaults) = eval(p, None, false);
-                ctx.case(true);
-                ctx.add("valid_programs", 1);
-                // the same program with a comment after every identifier is as valid
-                ctx.trace(|| json!({ "program": p, "fault_index": null, "trivia": true, "witness": tag }));
-                let (fails_t, _) = eval(p, None, true);
-                ctx.case(true);
-                ctx.add("valid_programs", 1);
-                for f in fails_t {
-                    ctx.fail(f);
+                if ctx.mine() {
+                    // the same program with a comment after every identifier is as valid
+                    ctx.trace(|| json!({ "program": p, "fault_index": null, "trivia": true, "witness": tag }));
+                    let em_t = crate::pm::emit_with(p, true);
+                    let fails = to_failures(guard(|| check_valid(&em_t)), json!({ "program": p, "fault_index": null, "trivia": true }), format!("valid {tag} (trivia)"));
+                    ctx.case(true);
+                    ctx.add("valid_programs", 1);
+                    for f in fails {
+                        ctx.fail(f);
+                    }
                 }
-                ctx.sample(|| json!({ "valid": tag, "fault_sites": nfaults }));
-                for f in fails {
-                    ctx.fail(f);
-                }
-                for i in 0..nfaults {
+                for (i, fault) in fs.iter().enumerate() {
+                    if !ctx.mine() {
+                        continue;
+                    }
                     ctx.trace(|| json!({ "program": p, "fault_index": i, "witness": format!("{tag} fault {i}") }));
-                    let (fails, _) = eval(p, Some(i), false);
+                    let fails = to_failures(guard(|| check_fault(&em, fault)), json!({ "program": p, "fault_index": i, "trivia": false }), format!("fault {i}"));
                     ctx.case(true);
                     ctx.add("faults_seeded", 1);
                     for f in fails {
